@@ -28,7 +28,7 @@ def main(argv):
             out = os.path.join(root, cid, 'out')
             if not os.path.isdir(out):
                 continue
-            for v in ('a', 'b'):
+            for v in ('a', 'b', 'c'):
                 fin = os.path.join(out, 'final_%s.txt' % v)
                 if not os.path.exists(fin):
                     continue
